@@ -159,9 +159,22 @@ struct Task {
 }
 
 pub fn check(tier: Tier) -> i32 {
+    check_on(tier, None)
+}
+
+/// `only`: run on exactly these states (single-source / replay mode: no evidence or replay file
+/// is written) instead of the explored and selected ones.
+pub fn check_on(tier: Tier, only: Option<Vec<Selected>>) -> i32 {
     let mut ev = Evidence::new("C13", tier_name(tier));
-    let e = explore(tier);
-    let sel = select::select(&e, tier, Lang::Python, &|_, _| true);
+    let single = only.is_some();
+    let (e, sel) = match only {
+        Some(states) => (pdlmc_core::graph::Explored::default(), select::Selection { states, strata: vec![] }),
+        None => {
+            let e = explore(tier);
+            let sel = select::select(&e, tier, Lang::Python, &|_, _| true);
+            (e, sel)
+        }
+    };
     let root = PathBuf::from(format!("{VERIF_DIR}/work/py_{}", tier_name(tier)));
     let _ = std::fs::remove_dir_all(&root);
     std::fs::create_dir_all(&root).expect("mkdir");
@@ -421,6 +434,7 @@ pub fn check(tier: Tier) -> i32 {
         .collect();
     eprintln!("phases (cpu ms): generate+inputs={} python={} oracles={}", t_gen.load(std::sync::atomic::Ordering::Relaxed), t_py.load(std::sync::atomic::Ordering::Relaxed), t_or.load(std::sync::atomic::Ordering::Relaxed));
     let mut rep = Reporter::new("C13");
+    rep.dry = single;
     let mut counters: BTreeMap<String, usize> = BTreeMap::new();
     let mut samples = vec![];
     for (r, c, s) in per_task {
@@ -453,6 +467,9 @@ pub fn check(tier: Tier) -> i32 {
     let code = rep.finish(&mut ev);
     let distinct = counters.iter().filter(|(k, v)| k.starts_with("outcome:") && **v > 0).count();
     ev.set("distinct_outcome_classes", json!(distinct));
+    if single {
+        return code;
+    }
     ev.write(&format!("{VERIF_DIR}/evidence"));
     if distinct < 2 {
         eprintln!("machinery error: exploration produced {distinct} outcome class(es)");
